@@ -103,6 +103,11 @@ def _defer_rule_errors(chk0):
     import functools
     from sa.index import AnalysisError
     from sa.report import Check
+    import pkgutil
+    import sa
+    for mi in pkgutil.iter_modules(sa.__path__):
+        if mi.name.startswith("rules_"):
+            importlib.import_module("sa." + mi.name)      # also the rule modules a property imports lazily
     for name, m in list(sys.modules.items()):
         if not name.startswith("sa.rules_"):
             continue
